@@ -1,7 +1,9 @@
 CONSTANTS
-  Files = {"a.py", "src/b.c"}
-  Lics = {"MIT", "LicenseRef-x"}
-  MaxCmds = 3
+  Files = {"a.py", "docs/c.md"}
+  Lics = {"0BSD", "LicenseRef-x"}
+  GlobFiles = {"docs/c.md"}
+  GlobLic = "0BSD"
+  MaxCmds = 2
   InitPick = "all"
 SPECIFICATION Spec
 INVARIANT ComplianceReachable
@@ -10,4 +12,6 @@ INVARIANT AnnotateIdempotent
 INVARIANT DownloadPartial
 PROPERTY Monotone
 PROPERTY ReadersReadOnly
+PROPERTY ConversionKeepsAttribution
+PROPERTY OnlyConvertMovesGlob
 CHECK_DEADLOCK FALSE
